@@ -95,6 +95,7 @@ type Ctx struct {
 	// UFInfo: registered UFs (name -> signature)
 	UFs     map[string]*UFSig
 	NoSimp  bool
+	NoSplit bool // word-level mode: bitwise operations are not pushed through concatenations
 	keybuf  []byte
 	NumVars int
 }
@@ -581,6 +582,9 @@ func (c *Ctx) Extract(t *Term, hi, lo int) *Term {
 		}
 		return c.Concat(parts...)
 	case OpBvAnd, OpBvOr, OpBvXor:
+		if c.NoSplit {
+			break
+		}
 		as := make([]*Term, len(t.Args))
 		for i, a := range t.Args {
 			as[i] = c.Extract(a, hi, lo)
@@ -598,13 +602,21 @@ func (c *Ctx) Extract(t *Term, hi, lo int) *Term {
 			return r
 		}
 	case OpBvNot:
+		if c.NoSplit {
+			break
+		}
 		return c.BvNot(c.Extract(t.Args[0], hi, lo))
 	case OpIte:
 		if t.Args[1].IsConst() || t.Args[2].IsConst() || t.Args[1].Op == OpConcat || t.Args[2].Op == OpConcat {
 			return c.Ite(t.Args[0], c.Extract(t.Args[1], hi, lo), c.Extract(t.Args[2], hi, lo))
 		}
 	case OpAdd, OpSub, OpMul:
-		if lo == 0 {
+		// truncation distributes over +,-,*; only done for shallow operands (deep chains would be rebuilt
+		// once per distinct width)
+		if lo == 0 && shallow(t.Args[0]) && shallow(t.Args[1]) {
+			if t.Op == OpAdd && len(t.Args) > 2 {
+				break
+			}
 			a, b := c.Extract(t.Args[0], hi, 0), c.Extract(t.Args[1], hi, 0)
 			switch t.Op {
 			case OpAdd:
@@ -621,6 +633,21 @@ func (c *Ctx) Extract(t *Term, hi, lo int) *Term {
 		}
 	}
 	return c.mk(&Term{Op: OpExtract, W: w, Args: []*Term{t}, Hi: hi, Lo: lo})
+}
+
+func shallow(t *Term) bool {
+	switch t.Op {
+	case OpConst, OpVar, OpExtract:
+		return true
+	case OpConcat:
+		for _, a := range t.Args {
+			if a.Op != OpConst && a.Op != OpVar && a.Op != OpExtract {
+				return false
+			}
+		}
+		return true
+	}
+	return false
 }
 
 func (c *Ctx) ZExt(t *Term, w int) *Term {
@@ -722,7 +749,7 @@ func (c *Ctx) Add(a, b *Term) *Term {
 		return c.Ite(c.Eq(a.Args[1], c.Const(1, 1)), c.Const(a.W, 0), b)
 	}
 	// addition of terms with disjoint non-zero bit ranges is a concatenation (byte assembly with '+')
-	if a.Op == OpConcat || b.Op == OpConcat {
+	if (a.Op == OpConcat || a.IsConst()) && (b.Op == OpConcat || b.IsConst()) {
 		sa, sb := c.alignSegs(a, b)
 		if len(sa) > 1 {
 			ok := true
@@ -745,17 +772,56 @@ func (c *Ctx) Add(a, b *Term) *Term {
 			}
 		}
 	}
-	// (x + k1) + k2
-	if b.IsConst() && a.Op == OpAdd && a.Args[1].IsConst() {
-		return c.Add(a.Args[0], c.Add(a.Args[1], b))
+	return c.addN(a, b)
+}
+
+// addN builds the AC-normal form of a+b: flattened, constants folded, operands sorted by id.
+func (c *Ctx) addN(a, b *Term) *Term {
+	var items []*Term
+	w := a.W
+	var k *Term
+	add := func(t *Term) {
+		if t.Op == OpAdd {
+			for _, x := range t.Args {
+				if x.IsConst() {
+					if k == nil {
+						k = x
+					} else if w <= 64 {
+						k = c.Const(w, k.Val+x.Val)
+					} else {
+						k = c.bigBin(k, x, func(p, q *big.Int) *big.Int { return new(big.Int).Add(p, q) })
+					}
+				} else {
+					items = append(items, x)
+				}
+			}
+			return
+		}
+		if t.IsConst() {
+			if k == nil {
+				k = t
+			} else if w <= 64 {
+				k = c.Const(w, k.Val+t.Val)
+			} else {
+				k = c.bigBin(k, t, func(p, q *big.Int) *big.Int { return new(big.Int).Add(p, q) })
+			}
+			return
+		}
+		items = append(items, t)
 	}
-	if b.IsConst() && a.Op == OpSub && a.Args[1].IsConst() {
-		return c.Add(a.Args[0], c.Sub(b, a.Args[1]))
+	add(a)
+	add(b)
+	sort.SliceStable(items, func(i, j int) bool { return items[i].ID < items[j].ID })
+	if k != nil && !isZero(k) {
+		items = append(items, k)
 	}
-	if !b.IsConst() && a.ID > b.ID {
-		a, b = b, a
+	if len(items) == 0 {
+		return c.Const(w, 0)
 	}
-	return c.bin(OpAdd, a, b)
+	if len(items) == 1 {
+		return items[0]
+	}
+	return c.mk(&Term{Op: OpAdd, W: w, Args: items})
 }
 
 func (c *Ctx) Sub(a, b *Term) *Term {
@@ -776,7 +842,7 @@ func (c *Ctx) Sub(a, b *Term) *Term {
 		return c.Add(a, c.Neg(b))
 	}
 	// (x + y) - x
-	if a.Op == OpAdd {
+	if a.Op == OpAdd && len(a.Args) == 2 {
 		if a.Args[0] == b {
 			return a.Args[1]
 		}
@@ -904,7 +970,7 @@ func (c *Ctx) bitwise(op Op, a, b *Term) *Term {
 			return c.Ite(a.Args[0], c.bitwise(op, a.Args[1], b), c.bitwise(op, a.Args[2], b))
 		}
 	}
-	if a.Op == OpConcat || b.Op == OpConcat {
+	if !c.NoSplit && (a.Op == OpConcat || b.Op == OpConcat) {
 		// only split when it pays: both structured, or the other is const
 		if (a.Op == OpConcat && b.Op == OpConcat) || a.IsConst() || b.IsConst() || op != OpBvXor || true {
 			sa, sb := c.alignSegs(a, b)
@@ -1080,7 +1146,7 @@ func (c *Ctx) BvNot(a *Term) *Term {
 	if a.Op == OpIte && a.Args[1].IsConst() && a.Args[2].IsConst() {
 		return c.Ite(a.Args[0], c.BvNot(a.Args[1]), c.BvNot(a.Args[2]))
 	}
-	if a.Op == OpConcat {
+	if a.Op == OpConcat && !c.NoSplit {
 		out := make([]*Term, len(a.Args))
 		for i, s := range a.Args {
 			out[i] = c.BvNot(s)
